@@ -128,6 +128,7 @@ AXES_DECL = [
     # 1: free-text fields carry leading / trailing white space (a note ending in a newline, a value with a trailing blank), and the
     # second tag of every site is the first tag's value plus a trailing blank
     ("text.padded", _B, 0, 0, 0, ALL),
+    ("ids.hash_collide", _B, 0, 0, 0, ALL),
     ("feat.zero_value", (0, 1, 2), 0, 0, 0, ALL),
     ("time.tz_aware", _B, 0, 0, 0, ALL),
     # ---- configuration
@@ -208,6 +209,14 @@ class Universe:
             )
         return self.get(name, make)
 
+    def uid(self, kind, i):
+        """uuid of the i-th recording / clip; with ids.hash_collide the second one differs from the first by 2^61 - 1, so that the two
+        DIFFERENT identifiers have the same Python hash (identifiers are compared, never their hashes)."""
+        if self.c["ids.hash_collide"] and i == 1:
+            import uuid as _uuid
+            return _uuid.UUID(int=(U("%s:0" % kind).int + (2 ** 61 - 1)) % (1 << 128))
+        return U("%s:%d" % (kind, i))
+
     def tag(self, site, i=0):
         name = "%s%d" % (site if self.c["share.tags_distinct"] else "all", i)
         site_name = site if self.c["share.tags_distinct"] else "all"
@@ -267,7 +276,7 @@ class Universe:
 
         def make():
             return data.Recording(
-                uuid=U("rec:%d" % i),
+                uuid=self.uid("rec", i),
                 # rec.path_form 1: an up-level reference inside the audio directory (the path object must come back as given)
                 path=(["%s/sub %d/réc_%d.wav", "%s/tmp/../sub %d/réc_%d.wav", "%s/night" + AUDIO_DIR + "/sub %d/réc_%d.wav"][c["rec.path_form"]]
                       % (AUDIO_DIR, i, i)),
@@ -292,7 +301,7 @@ class Universe:
 
         def make():
             r = self.recording(i if c["clip.second_recording"] else 0)
-            return data.Clip(uuid=U("clip:%d" % i), recording=r, start_time=0.5 * i, end_time=5.0 + i,
+            return data.Clip(uuid=self.uid("clip", i), recording=r, start_time=0.5 * i, end_time=5.0 + i,
                              features=self.features("clip", c["clip.features"]))
         return self.get("clip:%d" % i, make)
 
